@@ -4,49 +4,13 @@ import MageModel.Generated.Template
 import MageModel.Bridge.Expected
 import MageModel.Invoke.Steps
 /-!
-Bridge for the invocation chain (C05 C08 C09 C10 C11 C12 C20): mage/main.go's ParseAndRun / Parse / Invoke /
-RunCompiled / Magefiles / Compile / GenerateMainfile / ExeName, internal/run.go and the status helpers still have the
-shapes `Invoke/*.lean` and `Gen/Main.lean` transcribe, and the generated-main template is the text the child model
-(`childMain`, `handleError`, flag defaults) was written from.
+Bridge for the invocation model's configuration (C05 C08 C09 C20): the three facts about `Invoke` / `listGoFiles` that
+`Invoke/Steps.lean` is parametrised by, regenerated from the source, are the ones the theorems assume.  The shapes of
+the transcribed functions are bridged per property in `Bridge/P05.lean` … `P20.lean`.
 -/
 namespace MageModel.Bridge.Invoke
 open MageModel
 
-theorem template_text : Generated.Template.tplString = Bridge.Expected.tplString := rfl
-theorem shape_ParseAndRun : Generated.Shapes.mage_ParseAndRun = Bridge.Expected.mage_ParseAndRun := rfl
-theorem shape_Parse : Generated.Shapes.mage_Parse = Bridge.Expected.mage_Parse := rfl
-theorem shape_Invoke : Generated.Shapes.mage_Invoke = Bridge.Expected.mage_Invoke := rfl
-theorem shape_RunCompiled : Generated.Shapes.mage_RunCompiled = Bridge.Expected.mage_RunCompiled := rfl
-theorem shape_Main : Generated.Shapes.mage_Main = Bridge.Expected.mage_Main := rfl
-theorem shape_Magefiles : Generated.Shapes.mage_Magefiles = Bridge.Expected.mage_Magefiles := rfl
-theorem shape_listGoFiles : Generated.Shapes.mage_listGoFiles = Bridge.Expected.mage_listGoFiles := rfl
-theorem shape_Compile : Generated.Shapes.mage_Compile = Bridge.Expected.mage_Compile := rfl
-theorem shape_GenerateMainfile : Generated.Shapes.mage_GenerateMainfile = Bridge.Expected.mage_GenerateMainfile := rfl
-theorem shape_ExeName : Generated.Shapes.mage_ExeName = Bridge.Expected.mage_ExeName := rfl
-theorem shape_hashFile : Generated.Shapes.mage_hashFile = Bridge.Expected.mage_hashFile := rfl
-theorem shape_generateInit : Generated.Shapes.mage_generateInit = Bridge.Expected.mage_generateInit := rfl
-theorem shape_removeContents : Generated.Shapes.mage_removeContents = Bridge.Expected.mage_removeContents := rfl
-theorem shape_UsesMagefiles : Generated.Shapes.mage_Invocation_UsesMagefiles = Bridge.Expected.mage_Invocation_UsesMagefiles := rfl
-theorem shape_sh_ExitStatus : Generated.Shapes.sh_ExitStatus = Bridge.Expected.sh_ExitStatus := rfl
-theorem shape_sh_CmdRan : Generated.Shapes.sh_CmdRan = Bridge.Expected.sh_CmdRan := rfl
-theorem shape_mg_ExitStatus : Generated.Shapes.mg_ExitStatus = Bridge.Expected.mg_ExitStatus := rfl
-theorem shape_mg_Fatal : Generated.Shapes.mg_Fatal = Bridge.Expected.mg_Fatal := rfl
-theorem shape_mg_Fatalf : Generated.Shapes.mg_Fatalf = Bridge.Expected.mg_Fatalf := rfl
-theorem shape_mg_fatalErr_ExitStatus : Generated.Shapes.mg_fatalErr_ExitStatus = Bridge.Expected.mg_fatalErr_ExitStatus := rfl
-theorem shape_mg_Verbose : Generated.Shapes.mg_Verbose = Bridge.Expected.mg_Verbose := rfl
-theorem shape_mg_Debug : Generated.Shapes.mg_Debug = Bridge.Expected.mg_Debug := rfl
-theorem shape_mg_GoCmd : Generated.Shapes.mg_GoCmd = Bridge.Expected.mg_GoCmd := rfl
-theorem shape_mg_HashFast : Generated.Shapes.mg_HashFast = Bridge.Expected.mg_HashFast := rfl
-theorem shape_mg_CacheDir : Generated.Shapes.mg_CacheDir = Bridge.Expected.mg_CacheDir := rfl
-theorem shape_mg_onceFun_run : Generated.Shapes.mg_onceFun_run = Bridge.Expected.mg_onceFun_run := rfl
-theorem shape_mg_runDeps : Generated.Shapes.mg_runDeps = Bridge.Expected.mg_runDeps := rfl
-theorem shape_sh_run : Generated.Shapes.sh_run = Bridge.Expected.sh_run := rfl
-theorem shape_sh_Exec : Generated.Shapes.sh_Exec = Bridge.Expected.sh_Exec := rfl
-theorem shape_EnvWithGOOS : Generated.Shapes.internal_EnvWithGOOS = Bridge.Expected.internal_EnvWithGOOS := rfl
-theorem shape_EnvWithCurrentGOOS : Generated.Shapes.internal_EnvWithCurrentGOOS = Bridge.Expected.internal_EnvWithCurrentGOOS := rfl
-theorem shape_SplitEnv : Generated.Shapes.internal_SplitEnv = Bridge.Expected.internal_SplitEnv := rfl
-theorem shape_joinEnv : Generated.Shapes.internal_joinEnv = Bridge.Expected.internal_joinEnv := rfl
-theorem shape_OutputDebugDir : Generated.Shapes.internal_OutputDebugDir = Bridge.Expected.internal_OutputDebugDir := rfl
 theorem mainfile_name : Generated.Facts.mage_mainfile = "mage_output_file.go" := by decide
 theorem initfile_name : Generated.Facts.mage_initFile = "magefile.go" := by decide
 theorem magefiles_dir_name : Generated.Facts.mage_MagefilesDirName = "magefiles" := by decide
